@@ -60,8 +60,21 @@ def wf_clauses(A, tag):
     return {tag + '_prec': prec_ok(A), tag + '_exp': exp_ok(A), tag + '_pos': pos_ok(A), tag + '_neg': neg_ok(A)}
 
 
+def forks(*conds):
+    """proof hint: case split (forks the symbolic path on every condition); True natively"""
+    for c in conds:
+        if c:
+            continue
+    return True
+
+
 # ---------------------------------------------------------------------------
 # grid arithmetic
+
+def GRID():
+    """the ghost grid exponent (any integer below every exponent involved; see the `grid` preconditions)"""
+    return ghost('grid', 0)
+
 
 def Z(s, e, c, g):
     """signed integer of (-1)^s c 2^e on the grid 2^g (needs g <= e)"""
@@ -104,6 +117,29 @@ def mem_fin(s, e, c, A, g):
     """finite (s, e, c) is a member of A, with (c, e) itself as the witness; zeros by sign"""
     return ite(c == 0, (not s) or A.has_neg_zero,
                exp_fits(e, A) and prec_fits(c, A) and le_pos(s, e, c, A, g) and ge_neg(s, e, c, A, g))
+
+
+def mem_sp(nan, inf, s, c, A):
+    """the special-value part of membership: NaN, infinities and the sign of zero (no bounds involved)"""
+    return ite(nan, A.has_nan,
+           ite(inf, ite(s, A.has_neg_inf, A.has_pos_inf),
+               implies(c == 0, (not s) or A.has_neg_zero)))
+
+
+def mem_sp_v(v, A):
+    return mem_sp(v._isnan, v._isinf, v._real._s, v._real._c, A)
+
+
+def nz(v):
+    """finite and nonzero"""
+    return not v._isnan and not v._isinf and v._real._c != 0
+
+
+def mem_nz_clauses(v, A, g, tag):
+    """membership of a finite nonzero Float, one hypothesis per constraint (the given (c, exp) is the witness)"""
+    r = v._real
+    return {tag + '_nz': nz(v), tag + '_exp': exp_fits(r._exp, A), tag + '_prec': prec_fits(r._c, A),
+            tag + '_le_pos': le_pos(r._s, r._exp, r._c, A, g), tag + '_ge_neg': ge_neg(r._s, r._exp, r._c, A, g)}
 
 
 def mem_val(nan, inf, s, e, c, A, g):
